@@ -26,8 +26,8 @@ CHECKS = {
    note="Nested depth 2; clock not frozen, so keys whose expiry passes between recoveries may disappear (accounted for)."),
  "C05": dict(engine="seq", level="exploration", ref="DESIGN.md 5 C05",
    technique=TECH + "partition invariant monitor at quiescent points of simulated runs",
-   text="At every acknowledged flush with empty buffers and retirement queue the data area is checked to be exactly partitioned into live extents and maximal free runs, the allocator's own totals are recomputed, the persisted metadata counters are compared with the independently decoded durable image, and an OutOfSpace flush must be justified by the buffered extents not fitting the largest free run.",
-   note="Quiescent points only; small devices (24-256 data blocks); fault-free."),
+   text="At every acknowledged flush with empty buffers and retirement queue the data area is checked to be exactly partitioned into live extents and maximal free runs, the allocator's own totals are recomputed, the persisted metadata counters are compared with the independently decoded durable image, and an OutOfSpace flush must be justified by the buffered extents not fitting the largest free run; after the workload every key is deleted and the emptied device must offer exactly one free run over the whole data area. A second stage recovers crash images of overwrite-heavy workloads on 24-96 block devices (crash engine, profile C05) and checks the same partition after recovery and after a probe workload: recovery must neither leak nor double-book a block.",
+   note="Quiescent points only; small devices (24-256 data blocks); the sequential stage is fault-free, the crash stage loses/tears un-fsynced writes."),
  "C07": dict(engine="conc", level="exploration", ref="DESIGN.md 5 C07",
    technique=TECH + "2-4 simulated clients on shared keys; the hashed index is sampled at every scheduling step, giving the exact install order of generations, against which every call is attributed and justified",
    text="2-4 client threads issue short sequences (get, insert, delete, compare-and-swap, increment, insert-if-absent, JSON patch, TTL update, flush) on 1-3 shared keys, memory-only and persistent with the real flush workers, under random / sticky / PCT / starve-one schedules with preemption at every seam incl. the optimistic-read -> guarded-swap windows. The per-key sequence of installed generations (timestamp, length, expiry) is observed at every scheduling step; every successful modification must be attributable one-to-one to an installed generation inside its call interval (global event numbers), every transition must go to a strictly newer timestamp, created/swapped/incremented results must fit the predecessor generation (no lost increment, one winner per expected state), and every read, refusal or no-swap must be justified by a state inside the call interval or by one of the two conservative deviations of the property. Exploration level.",
